@@ -6,10 +6,10 @@ import (
 	"go/ast"
 	"go/parser"
 	"go/token"
-	"regexp"
 	"os"
 	"os/exec"
 	"path/filepath"
+	"regexp"
 	"sort"
 	"strings"
 	"sync"
@@ -23,12 +23,12 @@ import (
 type Mutant struct {
 	ID       string
 	Property string
-	File     string // repo-relative
-	Old, New string // exact substring replacement (Old must occur exactly once)
-	Patch    string // alternatively: a unified diff file (seeded changes)
+	File     string  // repo-relative
+	Old, New string  // exact substring replacement (Old must occur exactly once)
+	Patch    string  // alternatively: a unified diff file (seeded changes)
 	Rename   *Rename // alternatively: rename a local identifier inside one function (negative controls)
-	Rule     string // rule expected to fire
-	Silent   bool   // negative control: a behaviour-preserving edit; the whole check must stay silent
+	Rule     string  // rule expected to fire
+	Silent   bool    // negative control: a behaviour-preserving edit; the whole check must stay silent
 	Note     string
 }
 
